@@ -1179,3 +1179,244 @@ def check_pop_arg(ctx, unit):
                  ("num_args is overwritten at %s without a test that it grows: a directive naming a lower position shrinks "
                   "the count and the next positional directive reads past the supplied arguments" % bad[0]) if bad else
                  "%d writes of num_args, all increments or guarded" % nw, f)
+
+
+# ---- T.field-layout: the integer field is laid out as ISO C prescribes (structural clauses) ------------------------------
+
+def _char_may_be_zero(f, call, arg):
+    """May the character appended by `call` be '0'?  Literals decide themselves; a variable needs a dominating decision that
+    excludes '0' (directly, or through a once-initialised bool local that holds the comparison)."""
+    from . import rules_atomic as RA
+    for v, facts in flow.value_arms(f, arg, call):
+        x = std_unwrap(v)
+        c = x.cv() if x.kind not in ("DeclRefExpr", "MemberExpr") else None
+        if c is not None:
+            if c == ord("0"):
+                return True
+            continue
+        excluded = False
+        for cond, truth in list(facts) + list(flow.facts_at(f, call.id)):
+            c_, t_ = cond.strip(), truth
+            while c_.kind == "UnaryOperator" and c_.op == "!":
+                c_, t_ = c_.children[0].strip(), not t_
+            c_ = std_unwrap(RA.resolve_local(f, c_))
+            while c_.kind == "UnaryOperator" and c_.op == "!":
+                c_, t_ = c_.children[0].strip(), not t_
+            if c_.kind == "BinaryOperator" and c_.op in ("==", "!="):
+                l, r = c_.children[0].strip(), c_.children[1].strip()
+                for a, b in ((l, r), (r, l)):
+                    if canon(std_unwrap(a)) == canon(x) and b.cv() == ord("0") and ((c_.op == "!=") == t_):
+                        excluded = True
+        if not excluded:
+            return True
+    return False
+
+
+def check_field_layout(ctx, unit):
+    """Structural clauses of the ISO C layout of an integer field, [spaces][sign][prefix][zeros]digits[spaces]:
+    (W) every path of an integer conversion hands its argument to the field routine (an explicit precision of zero with the
+        value zero suppresses the digits, not the field);
+    (Z) the '0' flag reaches the field routine as zero padding only when no precision was given;
+    (S) the '+' and ' ' flags reach it only for the signed conversions;
+    (L) inside the field routine: the length compared with the width depends on the sign; characters that may be '0' are
+        appended as padding only after the sign and before the digits."""
+    from . import rules_atomic as RA
+    ctx.rule("T.field-layout", "integer fields are laid out as ISO C prescribes: every path of a conversion reaches the field routine; "
+             "'0' padding only without a precision; '+'/' ' only for signed conversions; the width accounts for the sign; zero "
+             "padding sits between the sign and the digits and never to the right of a left-justified field", 4)
+    fs = unit.fns(uq="frg::do_printf_ints")
+    if not fs:
+        raise AnalysisBroken("anchor vanished: do_printf_ints")
+    by_did = {g.did: g for g in unit.functions}
+    FIELD = ("print_int", "print_digits")
+    for f in fs:
+        # (W)
+        def transfer(n, st):
+            if n.kind == "CallExpr" and n.callee and n.callee["uq"] == "frg::pop_arg" and not n.get("inlined"):
+                return ["popped"]
+            if n.is_call() and n.callee and n.callee["n"] in FIELD and not n.get("inlined"):
+                return ["printed"]
+            return [st]
+        _, ex = flow.run(f, ["none"], transfer, None)
+        ctx.inst("T.field-layout", "frg::do_printf_ints: every conversion path reaches the field routine", "popped" not in ex, f.loc,
+                 "a path pops the argument and returns without calling print_int: the field (width padding, sign) is dropped with the digits"
+                 if "popped" in ex else "every path that pops an argument prints a field", f)
+        calls = [n for n in f.all_nodes() if n.is_call() and n.callee and n.callee["n"] == "print_int" and not n.get("inlined")]
+        if not calls:
+            raise AnalysisBroken("anchor vanished: print_int calls in do_printf_ints")
+        bad_z, bad_s = [], []
+        for c in calls:
+            g = by_did.get(c.callee.get("did"))
+            if g is None:
+                continue
+            names = [p_["n"] for p_ in g.params()]
+            args = c.args
+            def arg_of(nm):
+                return args[names.index(nm)] if nm in names and names.index(nm) < len(args) else None
+            pa = arg_of("padding")
+            if pa is not None and pa.kind != "CXXDefaultArgExpr":
+                v = RA.resolve_local(f, std_unwrap(pa))
+                for val, facts in flow.value_arms(f, v, c):
+                    x = std_unwrap(val)
+                    cv_ = x.cv() if x.kind not in ("DeclRefExpr", "MemberExpr") else None
+                    if cv_ == ord("0"):
+                        no_prec = False
+                        for cond, truth in facts:
+                            c_, t_ = cond.strip(), truth
+                            while c_.kind == "UnaryOperator" and c_.op == "!":
+                                c_, t_ = c_.children[0].strip(), not t_
+                            if not t_ and any(y.kind == "MemberExpr" and y.m == "precision" for y in c_.walk()) \
+                                    and not any(y.kind == "BinaryOperator" and y.op in ("&&", "||") for y in c_.walk()):
+                                no_prec = True
+                        if not no_prec:
+                            bad_z.append(c.loc)
+            num = arg_of("number")
+            unsigned_conv = num is not None and (num.strip().get("sgn") is False)
+            if unsigned_conv:
+                for nm in ("always_sign", "plus_becomes_space"):
+                    a = arg_of(nm)
+                    if a is not None and a.kind != "CXXDefaultArgExpr" and flow.const_fold(f, a) != 0:
+                        bad_s.append("%s at %s" % (nm, c.loc))
+        ctx.inst("T.field-layout", "frg::do_printf_ints: '0' padding only without a precision", not bad_z, (bad_z[0] if bad_z else f.loc),
+                 ("the padding character handed to print_int at %s is '0' although a precision may be given (ISO C: the 0 flag is then "
+                  "ignored)" % bad_z[0]) if bad_z else "zero padding is selected only where no precision is engaged", f)
+        ctx.inst("T.field-layout", "frg::do_printf_ints: sign flags for signed conversions only", not bad_s, f.loc,
+                 ("unsigned conversion passes %s: '+' / ' ' would print a sign for an unsigned value" % bad_s[0]) if bad_s else
+                 "unsigned conversions pass constant false for both sign flags", f)
+    # (L) inside print_digits
+    seen = set()
+    n_l = 0
+    for f in unit.functions:
+        if f.name != "print_digits" or not f.uq.startswith("frg::_fmt_basics"):
+            continue
+        key = f.params()[1]["t"] if len(f.params()) > 1 else f.sig
+        if key in seen:
+            continue
+        seen.add(key)
+        wp = [p_ for p_ in f.params() if p_["n"] == "width"]
+        if not wp:
+            raise AnalysisBroken("anchor vanished: width parameter of print_digits")
+        cyc = set()
+        from .rules_own import in_cycle_blocks
+        cyc = in_cycle_blocks(f)
+        pos = f.positions()
+        appends = [n for n in f.events() if n.kind == "CXXMemberCallExpr" and n.callee and n.callee["n"] == "append" and n.args
+                   and not (n.args[0].get("t") or "").rstrip().endswith("*") and n.id in pos]
+        digit_ev = [n for n in appends if std_unwrap(n.args[0]).kind == "ArraySubscriptExpr"]
+
+        def is_sign(n):
+            x = std_unwrap(n.args[0])
+            if x.cv() == ord("-") and x.kind not in ("DeclRefExpr",):
+                return True
+            if x.kind == "DeclRefExpr" and x.get("local"):
+                for w in f.all_nodes():
+                    if w.kind == "BinaryOperator" and w.op == "=" and w.children[0].strip().kind == "DeclRefExpr" \
+                            and w.children[0].strip().d["d"] == x.d["d"] and w.children[1].strip().cv() == ord("-"):
+                        return True
+            return False
+        sign_ev = [n for n in appends if is_sign(n)]
+        # padding events: character appends inside a loop whose dominating decisions mention the width
+        def mentions_width(n):
+            for cond, truth in flow.facts_at(f, n.id):
+                if any(y.kind == "DeclRefExpr" and y.d["d"] == wp[0]["d"] for y in cond.walk()):
+                    return True
+            return False
+        pad_ev = [n for n in appends if pos[n.id][0] in cyc and n not in digit_ev and not is_sign(n) and mentions_width(n)]
+        if not sign_ev or not digit_ev or not pad_ev:
+            raise AnalysisBroken("anchor vanished: sign / digit / padding output of print_digits (%d/%d/%d)" % (len(sign_ev), len(digit_ev), len(pad_ev)))
+        problems = []
+        # the length compared with the width depends on the sign
+        signdeps = set()
+        for s_ in sign_ev:
+            x = std_unwrap(s_.args[0])
+            if x.kind == "DeclRefExpr":
+                signdeps.add(x.d["d"])
+            for cond, truth in flow.facts_at(f, s_.id):
+                for y in cond.walk():
+                    if y.kind == "DeclRefExpr":
+                        signdeps.add(y.d["d"])
+        inits = RA.local_inits(f)
+        lenvars = set()
+        for p_ in pad_ev:
+            for cond, truth in flow.facts_at(f, p_.id):
+                if not any(y.kind == "DeclRefExpr" and y.d["d"] == wp[0]["d"] for y in cond.walk()):
+                    continue
+                work = [y for y in cond.walk() if y.kind == "DeclRefExpr"]
+                hops = 0
+                while work and hops < 200:
+                    y = work.pop(); hops += 1
+                    d = y.d["d"]
+                    if d in lenvars:
+                        continue
+                    lenvars.add(d)
+                    if d in inits:
+                        work += [z for z in inits[d].walk() if z.kind == "DeclRefExpr"]
+        if not (lenvars & signdeps):
+            problems.append("the length compared with the width does not depend on whether a sign is printed: a signed field is one "
+                            "character wider than asked for")
+        for p_ in pad_ev:
+            if not _char_may_be_zero(f, p_, p_.args[0]):
+                continue
+            if any(f.reaches(p_.id, s_.id) for s_ in sign_ev):
+                problems.append("padding that may be '0' is appended at %s before the sign (000-7 instead of -0007)" % p_.loc)
+            elif not any(f.reaches(p_.id, d_.id) for d_ in digit_ev):
+                problems.append("padding that may be '0' is appended at %s behind the digits of a left-justified field" % p_.loc)
+        n_l += 1
+        ctx.inst("T.field-layout", "frg::_fmt_basics::print_digits<%s>: sign, zero padding and width" % key, not problems, f.loc,
+                 "; ".join(sorted(set(problems))[:3]) if problems else
+                 "the width accounts for the sign; possibly-zero padding sits between sign and digits only", f)
+    if n_l == 0:
+        raise AnalysisBroken("anchor vanished: print_digits")
+
+
+def check_star_width(ctx, unit, rule="B6.star-width-nonneg"):
+    """A '*' width comes from the argument list and may be any int.  ISO C reads a negative one as the '-' flag plus its
+    magnitude; the conversions compute `width - 1`, `width - length` in int.  Per path of printf_format: after the width
+    has been assigned from pop_arg<int>, it reaches the agent only through a test `width < 0` whose true arm re-assigns it
+    (to its magnitude) -- so no conversion ever sees a negative width."""
+    ctx.rule(rule, "printf_format hands a '*' width on only after normalising a negative value (the '-' flag plus the magnitude): "
+             "the conversions' width arithmetic never starts from a negative int", 1)
+    fs = unit.fns(uq="frg::printf_format")
+    if not fs:
+        raise AnalysisBroken("anchor vanished: printf_format")
+    for f in fs[:1]:
+        n_star = [0]
+        bad = []
+
+        def is_width(x):
+            p_ = path(x)
+            return bool(p_) and p_[-1] == "minimum_width"
+
+        def transfer(n, st):
+            w = write_of(n) if n.kind in ("BinaryOperator", "CompoundAssignOperator") else None
+            if w and w[0] and w[0][-1] == "minimum_width" and w[1] is not None:
+                v = std_unwrap(w[1])
+                if v.kind == "CallExpr" and v.callee and v.callee["uq"] == "frg::pop_arg":
+                    n_star[0] += 1
+                    return ["raw"]
+                return ["ok" if st in ("neg",) or st == "ok" else st] if st != "raw" else ["raw"]
+            if st in ("raw", "neg") and n.is_call() and n.kind == "CXXOperatorCallExpr" and n.callee and n.callee.get("op") == "()" \
+                    and len(n.args) >= 3:
+                bad.append(n.loc)
+            return [st]
+
+        def refine(cond, truth, st):
+            if st != "raw":
+                return [st]
+            rel = flow.fact_relation(cond, truth)
+            if rel is None:
+                return [st]
+            a, op, b = rel
+            # width < 0  (true: negative, must be re-assigned; false: fine)
+            if op == "<" and is_width(a) and b.strip().cv() == 0:
+                return ["neg"]
+            if op == "<=" and is_width(b) and a.strip().cv() == 0:
+                return ["ok"]
+            return [st]
+        from .rules_guard import write_of
+        flow.run(f, ["ok"], transfer, refine)
+        if n_star[0] == 0:
+            raise AnalysisBroken("anchor vanished: '*' width popped in printf_format")
+        ctx.inst(rule, "frg::printf_format: '*' width", not bad, (bad[0] if bad else f.loc),
+                 ("the agent is called at %s with a width taken from the argument list that was never tested for being negative" % bad[0])
+                 if bad else "a negative '*' width is re-assigned before any conversion sees it", f)
